@@ -3,7 +3,10 @@
 All eight shipped classes (LIF, ALIF, GLIF1, GLIF2, QIF, Izhikevich, EIF, AdEx).
 
 Legs (one interpreter, ``_run``; two generators)
-  step  : generated trajectories.  After every ``forward`` the implementation is compared with
+  step  : generated trajectories (in ~60 % of the cases runs of equal drive, or the whole trajectory,
+          are fed through ONE re-used input tensor object, as a caller with a constant drive does; the
+          reference always uses the intended drive values and ``forward`` must leave the tensor unchanged).
+          After every ``forward`` the implementation is compared with
           the one-step reference (pbt.models.neurons.NeuronRef) evaluated from the
           implementation's *observed* pre-state, plus the trajectory statements of the property
           (silence / held voltage for the documented number of steps after an observed spike,
@@ -124,7 +127,7 @@ def _run(case):
 
     c = dict.fromkeys(
         ["steps", "spk", "sub", "win_supra", "respike", "amb", "maskamb", "exact_eq", "exact_lt",
-         "exact_gt", "masked", "held", "attr_cmp"], 0)
+         "exact_gt", "masked", "held", "attr_cmp", "reused", "reused_spk"], 0)
     labels = set()
     deferred = None
 
@@ -133,6 +136,7 @@ def _run(case):
             n = _build(case)
         silent = np.zeros(full, dtype=np.int64)  # remaining steps of the documented silent window
         prev_spk = np.zeros(full, dtype=bool)
+        held_x, held_vals = None, None  # the caller's input tensor object and its INTENDED contents
 
         for si, stp in enumerate(case["steps"]):
             with impl("read state"):
@@ -160,7 +164,8 @@ def _run(case):
 
             # ---- input currents (symbolic drives resolved against the observed pre-state)
             v64 = v0.astype(np.float64)
-            pool = stp["el"]
+            same = bool(stp.get("same")) and held_x is not None
+            pool = stp["el"] if not same else [["z"]]
             stat = ref.stationary_current(v64, a0b)
             ix = np.zeros(numel, dtype=np.float64)
             for j in range(numel):
@@ -185,7 +190,9 @@ def _run(case):
                 if not np.isfinite(val) or abs(val) > 1e6:
                     val = 0.0
                 ix[j] = val
-            ixw = ix.reshape(full).astype(wd)
+            # "same": the caller drives the neuron with the SAME tensor object as in the previous call
+            # (constant drive); the reference uses the intended values, never the tensor's contents
+            ixw = held_vals if same else ix.reshape(full).astype(wd)
             ix64 = ixw.astype(np.float64)
             lock = bool(stp.get("lock", True))
             kw = {"refrac_lock": lock}
@@ -207,8 +214,12 @@ def _run(case):
                 labels.add("stop:overflow")
                 break
 
+            if not same:
+                held_x, held_vals = torch.from_numpy(ixw.copy()), ixw
+            else:
+                c["reused"] += 1
             with impl(f"forward step {si}"):
-                out = n(torch.from_numpy(ixw.copy()), **kw)
+                out = n(held_x, **kw)
             what = f"{cls} step {si}"
             check(isinstance(out, torch.Tensor) and out.dtype == torch.bool, "output:dtype",
                   lambda: f"{what}: forward returned {type(out).__name__} {getattr(out, 'dtype', None)}")
@@ -302,6 +313,14 @@ def _run(case):
                           f"{np.argwhere(bad)[0].tolist()} (pre V={v0[bad][0]!r}, I={ixw[bad][0]!r}, "
                           f"out-of-refractory={bool(m[bad][0])})")
 
+            # forward must leave the caller's input tensor alone (a caller re-using one tensor for a
+            # constant drive would otherwise see its drive zeroed after the first refractory step)
+            xin = held_x.detach().numpy()
+            bad = ~((xin == held_vals) | (np.isnan(xin) & np.isnan(held_vals)))
+            check(not bad.any(), "input:mutated",
+                  lambda: f"{what}: forward modified the caller's input tensor in place at {np.argwhere(bad)[0].tolist()}: "
+                          f"{held_vals[bad][0]!r} -> {xin[bad][0]!r} (refractory before the step: {r0[bad][0]!r})")
+
             # spike attribute (mismatch deferred so that the rest of the trajectory is checked)
             if want_attr:
                 check(isinstance(attr, torch.Tensor) and attr.dtype == torch.bool and tuple(attr.shape) == full,
@@ -334,6 +353,8 @@ def _run(case):
             c["respike"] += int((prev_spk & sp & supra).sum())
             c["masked"] += int((~m).sum())
             c["held"] += int(held.sum())
+            if same:
+                c["reused_spk"] += int((decisive & sp).sum())
             silent = np.where(sp, Ls, np.maximum(silent - 1, 0))
             prev_spk = sp
 
@@ -346,7 +367,8 @@ def _run(case):
     labels |= {cls, dtype, rcls, "lock=" + ("mixed" if len(locks) > 1 else str(locks.pop()))}
     for k, lab in (("amb", "ambiguous-threshold"), ("maskamb", "ambiguous-mask"), ("exact_eq", "exact:V==Theta"),
                    ("exact_lt", "exact:V<Theta"), ("spk", "spiked"), ("held", "held-voltage"),
-                   ("win_supra", "supra-in-window")):
+                   ("win_supra", "supra-in-window"), ("reused", "input-tensor-reused"),
+                   ("reused_spk", "spike-on-reused-tensor")):
         if c[k]:
             labels.add(lab)
     if case["refrac_t"] == 0:
@@ -458,6 +480,14 @@ _DRIVE = st.one_of(
 ).map(list)
 
 
+# drives that make a neuron fire repeatedly when held constant
+_STRONG = st.one_of(
+    st.tuples(st.just("h"), st.sampled_from([1, 1, -1])),
+    st.tuples(st.just("c"), st.sampled_from([25.0, 200.0, 60.0, -200.0, 7.0])),
+    st.tuples(st.just("t"), st.sampled_from([5.0, 20.0, 60.0, 1.0])),
+).map(list)
+
+
 @st.composite
 def step_case(draw, tier="quick"):
     S = st.sampled_from
@@ -475,14 +505,20 @@ def step_case(draw, tier="quick"):
     adaptmode = draw(S(["T", "T", "F", "N", "mixed"])) if adaptive else "F"
     nmax = 40
     nsteps = draw(st.integers(5, nmax))
+    # constant-drive stratum: "same" steps repeat the previous step's drive through the SAME tensor object
+    # ("runs": about half of the steps; "all": one tensor for the whole trajectory, supra-threshold drive)
+    reuse = draw(S(["no", "runs", "no", "all", "runs"]))
     steps = []
-    for _ in range(nsteps):
-        el = draw(st.lists(_DRIVE, min_size=1, max_size=min(numel, 6 if big else 4)))
+    for k in range(nsteps):
+        el = draw(st.lists(_DRIVE if not (reuse == "all" and k == 0) else _STRONG, min_size=1,
+                           max_size=min(numel, 6 if big else 4)))
         s = {"el": el,
              "lock": {"T": True, "F": False}.get(lockmode) if lockmode != "mixed" else draw(st.booleans())}
+        if k > 0 and (reuse == "all" or (reuse == "runs" and draw(st.booleans()))):
+            s["same"] = True
         if adaptive:
             s["adapt"] = {"T": True, "F": False, "N": None}.get(adaptmode) if adaptmode != "mixed" else draw(S([True, False, None]))
-        if draw(st.integers(0, 11)) == 0:
+        if reuse != "all" and draw(st.integers(0, 11)) == 0:
             s["set"] = draw(st.lists(st.one_of(
                 st.tuples(st.just("th"), st.integers(-64, 64), st.integers(0, 4)),
                 st.tuples(st.just("abs"), _q(-90, 50, 8))).map(list), min_size=1, max_size=2))
